@@ -419,16 +419,25 @@ def check_file(res, data, pps, perf, kn):
     # bank to the next program change it receives
     # (judged for the program changes the performance has; the default program 0 the writer adds to a channel without
     # any is not a selection the performance makes)
-    explicit = [(int(p_.get("channel", 0)), int(p_["program"]), p_["time"]) for pp in pps for p_ in pp.programs]
+    # (... and for the bank selects that come WITH it in the performance: same part, same channel, same moment. Events of
+    # other parts or of a slightly different time that merely share its tick after rounding stand in their own order)
+    explicit = []
+    for pp in pps:
+        for p_ in pp.programs:
+            comp = set((int(c_["number"]), int(c_["value"])) for c_ in pp.controls if int(c_.get("number", -1)) in (0, 32) and c_["time"] == p_["time"] and int(c_.get("channel", 0)) == int(p_.get("channel", 0)))
+            if comp:
+                explicit.append((int(p_.get("channel", 0)), int(p_["program"]), p_["time"], comp))
     for ti, tr in enumerate(smf["tracks"]):
         for i, ev in enumerate(tr):
-            if ev["type"] == "program_change" and any(c_ == ev["channel"] and g_ == ev["program"] and ticks_ok(t_, ev["tick"], ppq, mpq) for c_, g_, t_ in explicit):
-                late = [e2 for e2 in tr[i + 1 :] if e2["tick"] == ev["tick"] and e2["type"] == "control_change" and e2["channel"] == ev["channel"] and e2["control"] in (0, 32)]
+            comps = [x_[3] for x_ in explicit if x_[0] == ev.get("channel") and x_[1] == ev.get("program") and ticks_ok(x_[2], ev["tick"], ppq, mpq)] if ev["type"] == "program_change" else []
+            if comps:
+                mine = set().union(*comps)
+                late = [e2 for e2 in tr[i + 1 :] if e2["tick"] == ev["tick"] and e2["type"] == "control_change" and e2["channel"] == ev["channel"] and (e2["control"], e2["value"]) in mine]
                 if late:
                     res.probe("bank_select_with_program")
                     res.violation("P1-file", "save", "track %d tick %d channel %d: program change %d is written before the bank select (controller %d) of the same moment" % (ti, ev["tick"], ev["channel"], ev["program"], late[0]["control"]), site="bank-select-order")
                     return
-                if any(e2["tick"] == ev["tick"] and e2["type"] == "control_change" and e2["channel"] == ev["channel"] and e2["control"] in (0, 32) for e2 in tr[:i]):
+                if any(e2["tick"] == ev["tick"] and e2["type"] == "control_change" and e2["channel"] == ev["channel"] and (e2["control"], e2["value"]) in mine for e2 in tr[:i]):
                     res.probe("bank_select_with_program")
 
 
